@@ -446,13 +446,13 @@ def _judge(plan, tier, t0, g, n_hists, model_negs, steps, insts, dropped, full):
                 key = f"{clause}:{cname}"
             else:
                 key = f"{actname}:{clause}:{cname}" + (f":{e['exc']}" if clause == "raises" else "") + (f":{note}" if note and e["act"] != "deep" else "")
-            per_clause[f"{actname}:{clause}"] += 1
+            per_clause[clause if clause.split(":")[0] in ("deep", "rebind") else f"{actname}:{clause}"] += 1
             if key in seen:
                 continue
             seen.add(key)
             srcc, dstc = tbl[e["pre"][e["src"] - 1] - 1], (tbl[e["post"][e["dst"] - 1] - 1] if e["dst"] else None)
 
-            def full(c):
+            def fulltext(c):
                 return None if c is None else {kk: texts.get(v, v) if isinstance(v, str) else v for kk, v in c.items()}
             detail = f"{inst.label}: history {[(s['act'], s['src'], s['arg']) for s in h[:k + 1]]}; step {k + 1} ({e['act']} of node {e['src']}): TLC clause {clause}"
             if e["exc"]:
@@ -461,7 +461,7 @@ def _judge(plan, tier, t0, g, n_hists, model_negs, steps, insts, dropped, full):
                 detail += f"; cells shared by copy and source: {sorted(set(e['cells'][e['src'] - 1]) & set(e['cells'][e['dst'] - 1]))} (renumbered ids of ndarray/list/dict objects)"
             viol.append(Violation(key=key, detail=detail,
                                   replay={"instance": inst.label, "family": inst.family, "history": h[:k + 1], "step": k + 1, "clause": clause,
-                                          "source": full(srcc), "result": full(dstc), "newp": e["newp"], "qp_equal": e["eq"]}))
+                                          "source": fulltext(srcc), "result": fulltext(dstc), "newp": e["newp"], "qp_equal": e["eq"]}))
     # ---- (E) exact semantics of the reproduced table operators, decided by TLC.  Textually identical (reference, result)
     #      pairs are sent once; results with the same reference share one case (U_ref computed once).
     groups, order = {}, []
@@ -538,7 +538,8 @@ def _judge(plan, tier, t0, g, n_hists, model_negs, steps, insts, dropped, full):
             nontriv.add((c0["cls"], tuple((e["act"], e["src"]) for e in evs)))
     allcls = S.all_concrete_classes()
     samples = []
-    for ti in (0, n_real // 3, 2 * n_real // 3, n_real - 1):
+    with_params = [ti for ti in range(n_real) if traces[ti]["tbl"][traces[ti]["ev"][0]["pre"][0] - 1]["params"]] or list(range(n_real))
+    for ti in sorted({with_params[0], with_params[len(with_params) // 3], with_params[2 * len(with_params) // 3], with_params[-1]}):
         inst, h, info = meta[ti]
         samples.append({"instance": inst.label, "history": [(s["act"], s["src"], s["arg"]) for s in h[:len(traces[ti]["ev"])]],
                         "failing_clauses": [c for (_, c) in fails.get(ti, [])],
